@@ -26,7 +26,7 @@ RULE = ('place cases = real in-memory katsdptelstate with an inherit chain of le
         'stream, prefixes or refusal.  flags cases = L0 stream in an NPY chunk store plus 0-2 other archived streams '
         'with type sdp.flags/sdp.vis/sdp.cal/none, src_streams naming the opened stream or not (or missing), dump '
         'counts T-2..T+2, matching or mismatching channel/baseline counts, random time chunking, upgrade_flags '
-        'on/off, sdp_archived_streams present/absent: compared chunk info (prefix, shape, chunks) with the model, and '
+        'on/off, sdp_archived_streams present/absent (plus _upgrade_chunk_info / _align_chunk_info called directly on random chunk infos): compared chunk info (prefix, shape, chunks) with the model, and '
         'timestamps / vis / flags / weights with the stored arrays padded by lost data (flags.DATA_LOST) to the '
         'longest array.  notfound cases = missing file, directory, missing extension, garbage bytes, truncated RDB, '
         'unknown scheme through open_data_source.  non-trivial = key defined in >=1 namespace / >=1 override / >=1 '
@@ -659,6 +659,94 @@ def judge_flags(ctx, case, res, replies):
     return None
 
 
+# ---------------------------------------------------------------- _upgrade_chunk_info / _align_chunk_info directly
+
+ARRS = ['correlator_data', 'flags', 'weights', 'weights_channel']
+
+
+def gen_ci(rng, names, T=None, F=None, B=None, prefix='cb-l0'):
+    ci = {}
+    for nm in names:
+        t = T if T is not None else rng.randint(1, 6)
+        f = F if F is not None else rng.choice([2, 4])
+        b = B if B is not None else rng.choice([2, 4])
+        shape = (t, f) if nm == 'weights_channel' else (t, f, b)
+        chunks = (rand_chunks(rng, t),) + tuple((n,) for n in shape[1:])
+        ci[nm] = {'prefix': prefix, 'shape': list(shape), 'chunks': [list(c) for c in chunks]}
+    return ci
+
+
+def gen_ci_case(rng):
+    F, B = rng.choice([2, 4]), rng.choice([2, 4])
+    base = gen_ci(rng, rng.sample(ARRS, rng.randint(1, 4)), None if rng.random() < 0.7 else 3, F, B)
+    r = rng.random()
+    f2 = F if r < 0.7 else rng.choice([1, 2, 4])
+    b2 = B if r < 0.85 else rng.choice([1, 2, 4])
+    imp = gen_ci(rng, rng.sample(['flags', 'flags', 'weights', 'extra_array'], rng.randint(1, 2)), None, f2, b2, 'cb-l1')
+    return dict(kind='ci', base=base, imp=imp)
+
+
+def _py_ci(ci):
+    return {k_: {'prefix': v['prefix'], 'shape': tuple(v['shape']), 'chunks': tuple(tuple(c) for c in v['chunks'])}
+            for k_, v in ci.items()}
+
+
+def run_ci(ctx, case):
+    from katdal.datasources import _align_chunk_info, _upgrade_chunk_info
+    lines = [f"upci {enc_ci(case['base']) or '-'} {enc_ci(case['imp']) or '-'}", f"align {enc_ci(case['base']) or '-'}"]
+    res = dict(lines=lines, err=None)
+    try:
+        res['up'] = _upgrade_chunk_info(_py_ci(case['base']), _py_ci(case['imp']))
+    except ValueError as e:
+        res['up'] = ('E', str(e)[:80])
+    except Exception as e:   # noqa: BLE001
+        res['up'] = ('X', f'{type(e).__name__}: {e}')
+    try:
+        res['al'] = _align_chunk_info(_py_ci(case['base']))
+    except Exception as e:   # noqa: BLE001
+        res['al'] = ('X', f'{type(e).__name__}: {e}')
+    return res
+
+
+def judge_ci(ctx, case, res, replies):
+    base, imp = case['base'], case['imp']
+    mismatch = [k_ for k_, v in imp.items() if k_ in base and list(v['shape'][1:]) != list(base[k_]['shape'][1:])]
+    ctx.tag('ci-mismatch' if mismatch else 'ci-compatible')
+    up = res['up']
+    if isinstance(up, tuple) and up[0] == 'X':
+        return f'_upgrade_chunk_info raised {up[1]}'
+    if mismatch:
+        if not isinstance(up, tuple):
+            return f"_upgrade_chunk_info accepted array(s) {mismatch} whose channel/baseline shape differs from the original"
+    else:
+        if isinstance(up, tuple):
+            return f'_upgrade_chunk_info refused compatible arrays: {up[1]}'
+        for k_ in set(base) | set(imp):
+            want = imp[k_] if k_ in imp else base[k_]
+            got = up.get(k_)
+            if got is None or got['prefix'] != want['prefix'] or list(got['shape']) != list(want['shape']):
+                return f'_upgrade_chunk_info: array {k_} is {got}, expected the {"improved" if k_ in imp else "original"} one'
+        if enc_ci(up) != replies[0]:
+            ctx.advise(f'mirror model upgradeChunkInfo {replies[0][:150]} != {enc_ci(up)[:150]}')
+    al = res['al']
+    if isinstance(al, tuple):
+        return f'_align_chunk_info raised {al[1]}'
+    mx = max(v['shape'][0] for v in base.values())
+    for k_, v in base.items():
+        got = al[k_]
+        if got['shape'][0] != mx or list(got['shape'][1:]) != list(v['shape'][1:]):
+            return f'_align_chunk_info: array {k_} has shape {got["shape"]}, expected {mx} dumps and an unchanged tail'
+        tc = list(got['chunks'][0])
+        if sum(tc) != mx or tc[:len(v['chunks'][0])] != list(v['chunks'][0]):
+            return (f'_align_chunk_info: array {k_} time chunks {tc} do not keep the original chunks '
+                    f'{v["chunks"][0]} and add up to {mx}')
+        if [list(c) for c in got['chunks'][1:]] != [list(c) for c in v['chunks'][1:]]:
+            return f'_align_chunk_info changed the non-time chunks of {k_}'
+    if enc_ci(al) != replies[1]:
+        ctx.advise(f'mirror model alignChunkInfo {replies[1][:150]} != {enc_ci(al)[:150]}')
+    return None
+
+
 # ---------------------------------------------------------------- not found
 
 def run_notfound(ctx, tmpdir, files):
@@ -713,6 +801,8 @@ def evaluate(ctx, cases, tmpdir, files):
             r = run_url(ctx, c, files)
         elif k_ == 'flags':
             r = run_flags(ctx, c, tmpdir)
+        elif k_ == 'ci':
+            r = run_ci(ctx, c)
         else:
             r = dict(lines=[])
         runs.append(r)
@@ -741,6 +831,9 @@ def evaluate(ctx, cases, tmpdir, files):
             nontriv = bool(c['extra'])
             if r['err'] is None:
                 ctx.traces_validated += 1
+        elif k_ == 'ci':
+            v = judge_ci(ctx, c, r, rep)
+            nontriv = True
         else:
             v, nontriv = None, False
         if n:
@@ -769,6 +862,7 @@ def gen_cases(ctx):
     cases += [gen_order_case(rng) for _ in range(ctx.q(150, 5000))]
     cases += [gen_url_case(rng) for _ in range(ctx.q(220, 6000))]
     cases += [gen_flags_case(rng) for _ in range(ctx.q(220, 4000))]
+    cases += [gen_ci_case(rng) for _ in range(ctx.q(300, 10000))]
     return cases
 
 
